@@ -393,6 +393,8 @@ def _neighbours(q, ans, rng):
             out = [f"{op} {t[1]} {t[2]} {r2}" for r2 in (r - 1, r + 1) if 0 <= r2 <= 29]
             if lon == lon and abs(lon) < 1e6:
                 out += [f"{op} {geo.hx(lon + k)} {t[2]} {r}" for k in rng.sample([-1080.0, -720.0, -360.0, 360.0, 720.0, 1080.0], 2)]
+                from . import gen as _gen
+                out.append(f"{op} {geo.hx(lon + 360.0 * _gen.turns(rng))} {t[2]} {r}")
             if abs(lon) <= 90.0:
                 out.append(f"{op} {t[2]} {t[1]} {r}")          # coordinates exchanged
             if ans and ans.startswith("ok "):
